@@ -188,6 +188,11 @@ pub trait Engine {
     fn gen_sweep_base(_prop: &str, _tier: Tier, _rng: &mut Rng) -> Option<Self::Config> {
         None
     }
+    /// Configuration under which the sweep variants (base list + one inserted fault) are replayed:
+    /// the base configuration with the inserted fault class enabled.
+    fn sweep_replay_config(_prop: &str, cfg: &Self::Config) -> Self::Config {
+        cfg.clone()
+    }
     /// Number of sweep base runs for the tier.
     fn sweep_bases(_prop: &str, _tier: Tier) -> u64 {
         0
@@ -516,6 +521,7 @@ fn worker_main<E: Engine>(args: &Args, i: u64, n: u64) -> i32 {
             continue;
         }
         let base = ch.taken.clone();
+        let cfg = E::sweep_replay_config(prop, &cfg);
         let faults = E::sweep_faults(prop, &cfg);
         'sweep: for p in 0..=base.len() {
             for f in &faults {
@@ -744,6 +750,12 @@ fn replay_main<E: Engine>(args: &Args, file: &Path) -> i32 {
         return 2;
     }
     let quiet = std::env::var("VERIF_REPLAY_QUIET").is_ok();
+    // panics inside simulated code are part of the trace (injected faults, real defects): one line
+    std::panic::set_hook(Box::new(move |info| {
+        if !quiet {
+            println!("  ! panic: {info}");
+        }
+    }));
     let (v, taken, ctx) = match &rf.actions {
         Some(a) => {
             let cfg: E::Config = match serde_json::from_value(rf.config.clone()) {
